@@ -613,7 +613,15 @@ impl Scenario for C03 {
             let parent_known = n.bc.blocks.contains_key(&w.recs[idx].parent);
             if !parent_known {
                 r.fault("orphan_delivery", 1);
-                orphan_seen = true;
+                // the recorded orphan-branch finding clears the longest-chain marks *above* the parentless block's
+                // id (or adopts a parentless chain above the tip). A parentless block of exactly the tip's height
+                // touches nothing - the branch's loop is empty and a one-block chain is not longer than the tip's -
+                // and is simply stored: divergence after only such deliveries is not that finding
+                if w.recs[idx].id == n.tip().0 && n.tip().0 > 0 {
+                    r.fault("orphan_delivery_at_tip_height", 1);
+                } else {
+                    orphan_seen = true;
+                }
             }
             if n.bc.blocks.contains_key(&w.recs[idx].hash) {
                 r.fault("duplicate_delivery", 1);
